@@ -70,6 +70,11 @@ Theorem subscript_laws : forall k items key, lenZ items <= i64_max ->
   (- lenZ items <= key < 0 -> model_index k items key = model_index k items (key + lenZ items)).
 Proof. exact model_index_laws. Qed.
 
+(* The everyday case reads as it should: v[a:b] with 0 <= a <= b <= len is "drop a elements, take b - a". *)
+Theorem slice_is_sublist : forall k items a b, lenZ items <= i64_max -> 0 <= a <= b -> b <= lenZ items ->
+  model_slice k items (Some a) (Some b) None = Ok (rkind k, takeZ (b - a) (skipZ a items)).
+Proof. exact model_slice_sublist. Qed.
+
 (* non-vacuity: a concrete non-trivial instance meets the hypotheses *)
 Example slice_python_witness :
   model_slice KSeq [0;1;2] (Some 3) (Some 0) (Some (-1)) = Ok (3, [2;1]) /\
@@ -86,3 +91,4 @@ Print Assumptions slice_minus_one_reverses.
 Print Assumptions slice_selects_from_input.
 Print Assumptions py_slice_laws.
 Print Assumptions subscript_laws.
+Print Assumptions slice_is_sublist.
